@@ -42,7 +42,7 @@ def universe():
 
     xg = cards.make_grid(GRID_N // 2, GRID_N - GRID_N // 2, x_min=1e-2)
     xb = 0.35
-    user = [xb] + [xi_of(xb, q) for q in QS[:2]] + [xg[6], 0.5, 0.8]
+    user = [xb] + [xi_of(xb, q) for q in QS[:2]] + [xg[6], 0.5, 0.8, xb + 4e-7]    # (last: a distinct request 4e-7 away from xb)
     allx = set(user) | set(xg)
     for x in user:
         for q in QS:
@@ -97,6 +97,11 @@ def make_plans(seed, quick):
         plans.append((t, 1, [("F2", [kin(xb, QS[0], False), kin(xb, QS[1], False)])]))
         plans.append((t, 1, [("F2", [kin(xb, QS[1], False), kin(xb, QS[0], False)])]))
         plans.append((t, 1, [("F2", [kin(xb, QS[1], False)])]))
+        # two distinct requests that agree to six decimals, together in both orders and alone
+        xc = user[6]
+        plans.append((t, 1, [("F2", [kin(xb, QS[0], False), kin(xc, QS[0], False)])]))
+        plans.append((t, 1, [("F2", [kin(xc, QS[0], False), kin(xb, QS[0], False)])]))
+        plans.append((t, 1, [("F2", [kin(xc, QS[0], False)])]))
         # three and four distinct virtualities listed in an order that is NOT a self-inverse permutation of the sorted one
         plans.append((t, 1, [("F2", [kin(xb, QS[1], False), kin(xb, QS[3], False), kin(xb, QS[0], False)])]))
         plans.append((t, 1, [("FL", [kin(xb, QS[0], False), kin(xb, QS[1], True), kin(xb, QS[3], False), kin(xb, QS[2], False)])]))
